@@ -46,6 +46,7 @@ type nodeStats struct {
 	Notes                                                                                                                                                                               []string
 	Scenarios                                                                                                                                                                           int
 	C08Compared, C08Resets, TwoRoundScenarios, C08InDealsWindow, ReinitProbes, Reinits, FarFutureProposals, ProposedAfterFailure                                                                                                  int
+	W24ForeignBefore, W24ReinitInnerID, W24LookAlikeIDs, W24HeldBack int // nodew24.go
 	CancelledRounds                                                                                                                                                                     int
 	C08Late, C08StampsMoved, PrefilledResults, JSONVariants, KeylessReinits, ReinitVariants, ForgedOwnName, CollectedHere, C08RealLoop, ProposalsStored, ReorderedReinits, ErrorResults int
 	StaleSignatures, ForgedAnnouncements, ForgedAnnouncementsNoRound, RekeyedRoundBoards, RekeyedRoundCopies                                                                            int
@@ -916,6 +917,7 @@ func (r *nodeRun) scenario(outDir string, n, t int, twoRounds bool) {
 				// C09/C10: a payload the sender never signed - this message's payload altered, or the payload of the error report /
 				// decline of the same step in the same participant's name - under the signature bytes of an EARLIER genuine message
 				// of that sender, one this node has verified and accepted: shown now, while the sender's contribution is awaited
+				w24ForeignBefore(r, m, all, apply) // nodew24.go (C10/C02)
 				for _, mu := range r.staleSignature(m, acceptedOf[m.SenderAddr]) {
 					apply(mu)
 					r.st.StaleSignatures++
@@ -1044,6 +1046,7 @@ func (r *nodeRun) scenario(outDir string, n, t int, twoRounds bool) {
 		}
 	}
 	r.reinitProbes(c, obs, round)
+	r.w24Probes(c, obs, round) // nodew24.go (C09, C08)
 	r.farFutureProposal(c, obs, round)
 	// two signing batches, one with a late signer
 	for b := 0; b < 2; b++ {
@@ -1368,6 +1371,7 @@ func runNodeDiff(outDir string, seed int64, tier string) {
 	r.errorResults(outDir)
 	r.rekeyedRounds(outDir)
 	r.faultedAnswers(outDir)
+	r.w24HeldBackAnnouncement(outDir) // nodew24.go (C02)
 	r.ops.Flush()
 	r.obs.Flush()
 	fo.Close()
